@@ -191,7 +191,9 @@ def transform_expression(
     :param symbols_to_use: an optional list of symbols to use so that already defined symbols will be reused.
     :return: the transformed expression and the symbols to use.
     """
-    pddl_variables = set(re.findall(r"(\([\w-]+\s[?\w\-\s]*\))", expression))
+    pddl_variables = set(
+        re.findall(r"(\([a-zA-Z][\w-]*\s[?\w\-\s]*\))", expression)
+    )
     if len(pddl_variables) == 0:
         return expression, symbols_to_use if symbols_to_use is not None else {}
 
